@@ -779,11 +779,24 @@ func genC06(d *Draw) Case {
 		alts = append([]EventDef{}, alts...)
 		alts[na-1] = EventDef{Kind: "timer", Ref: "tm", Timer: "D:PT5S"}
 	}
+	tail := acts == 1 && !two && !timerAlt && d.N(4) == 3
 	for i := 0; i < na; i++ {
 		c := g.addNode(&Node{ID: fmt.Sprintf("C%d", i+1), Kind: "catch", Events: []EventDef{alts[i]}})
 		t := g.addNode(&Node{ID: fmt.Sprintf("T%d", i+1), Kind: "task", Results: []string{fmt.Sprintf("r_T%d", i+1)}})
 		g.connect(defs, "EG", c.ID, nil, -1)
 		g.connect(defs, c.ID, t.ID, nil, -1)
+		if tail && acts == 1 {
+			// behind the branch's task another catch event waits for the event of the NEXT alternative: a later
+			// delivery of a losing event has no effect on the withdrawn alternative, but it does reach this listener
+			nx := alts[(i+1)%na]
+			l := g.addNode(&Node{ID: fmt.Sprintf("L%d", i+1), Kind: "catch", Events: []EventDef{nx}})
+			tl := g.addNode(&Node{ID: fmt.Sprintf("TL%d", i+1), Kind: "task", Results: []string{fmt.Sprintf("r_TL%d", i+1)}})
+			g.connect(defs, t.ID, l.ID, nil, -1)
+			g.connect(defs, l.ID, tl.ID, nil, -1)
+			e := g.addNode(&Node{ID: fmt.Sprintf("E%d", i+1), Kind: "end"})
+			g.connect(defs, tl.ID, e.ID, nil, -1)
+			continue
+		}
 		if acts > 1 {
 			g.connect(defs, t.ID, "XM", nil, -1)
 		} else {
@@ -805,7 +818,10 @@ func genC06(d *Draw) Case {
 	c := &ProcCase{Buf: d.N(17), Hold: d.N(3)}
 	// event plan: a non-empty sequence over the competing events (plus an occasional stranger)
 	ne := 1 + d.N(4) + 2*(acts-1)
-	conc := d.N(3) == 2 && acts == 1 && !two && !timerAlt
+	conc := d.N(3) == 2 && acts == 1 && !two && !timerAlt && !tail
+	if tail {
+		ne += 3
+	}
 	if two {
 		ne += 2
 	}
@@ -851,7 +867,7 @@ func genC06(d *Draw) Case {
 	}
 	c.Prog = &Program{Defs: defs, Vars: map[string]any{}, Tags: tags, Desc: fmt.Sprintf("event gateway with %d alternatives %v, events %v concurrent=%v", na, alts[:na], evd, conc)}
 	c.Picks = drawPicks(d, 32)
-	c.Meta = map[string]int{"conc": b2i(conc), "na": na, "acts": acts, "two": b2i(two), "timerAlt": b2i(timerAlt)}
+	c.Meta = map[string]int{"conc": b2i(conc), "na": na, "acts": acts, "two": b2i(two), "timerAlt": b2i(timerAlt), "tail": b2i(tail)}
 	if timerAlt {
 		c.MockTimers = true
 		// in the end the clock certainly passes the due time: if no event won before, the time-out does
@@ -937,9 +953,11 @@ func checkC06(cc Case, r *simrt.Result) *Outcome {
 	if quiesced && c.Meta["acts"] <= 1 && c.Meta["two"] == 0 {
 		total := 0
 		for k, n := range branchReq {
-			total += n
 			idx := 0
-			fmt.Sscanf(k, "T%d", &idx)
+			if _, err := fmt.Sscanf(k, "T%d", &idx); err != nil || k != fmt.Sprintf("T%d", idx) {
+				continue // (a task further down a branch, behind a later catch event)
+			}
+			total += n
 			if idx >= 1 && idx <= na {
 				dff := findN(g, fmt.Sprintf("C%d", idx)).Events[0]
 				if !delivered[dff.Kind+":"+dff.Ref] {
@@ -957,7 +975,7 @@ func checkC06(cc Case, r *simrt.Result) *Outcome {
 			if total == 0 {
 				vl.add("C06/no-winner", "a competing event was delivered while the gateway was armed but no branch continued (determinations=%d)", det)
 			}
-			if total == 1 && !complete {
+			if total == 1 && !complete && c.Meta["tail"] == 0 {
 				vl.add("C06/not-complete", "one alternative won and its task was answered, but the instance did not complete: withdrawn alternatives keep it alive (terminations seen: %v)", termAt)
 			}
 		}
@@ -970,6 +988,8 @@ func checkC06(cc Case, r *simrt.Result) *Outcome {
 	probe(o, "gateway-re-entered", c.Meta["acts"] > 1 && det > 1)
 	probe(o, "two-tokens-at-the-gateway", c.Meta["two"] == 1)
 	probe(o, "timer-among-the-alternatives", c.Meta["timerAlt"] == 1)
+	probe(o, "a-later-catch-event-listens-for-a-losing-alternative's-event", c.Meta["tail"] == 1)
+	probe(o, "the-later-catch-event-got-the-losing-event", c.Meta["tail"] == 1 && (branchReq["TL1"]+branchReq["TL2"]+branchReq["TL3"]) > 0)
 	probe(o, "timer-alternative-won", c.Meta["timerAlt"] == 1 && branchReq[fmt.Sprintf("T%d", na)] > 0)
 	probe(o, "event-nodes-inside-sub-process", c.Meta["nested"] > 0)
 	probe(o, "two-tokens-at-the-gateway-both-continued", c.Meta["two"] == 1 && det > 1)
